@@ -61,6 +61,13 @@ rng = random.Random(a.seed)
 ctx = core.Ctx("TRYC", "quick", a.seed)
 
 
+def repo_state():
+    """HEAD and dirtiness of the implementation's working tree (other checks patch it temporarily)"""
+    rc1, head = core.sh(["git", "-C", core.REPO, "rev-parse", "HEAD"])
+    rc2, dirty = core.sh(["git", "-C", core.REPO, "status", "--short", "--", "internal", "cmd"])
+    return head.strip(), dirty.strip()
+
+
 def mkpass(rng, schemas, k, g):
     return dict(k) if isinstance(k, dict) else irgen.gen_pass(rng, schemas, k, g)
 
@@ -92,8 +99,13 @@ try:
             kinds = a.kinds.split(",")
             passes = [mkpass(rng, schemas, rng.choice(kinds), g) for _ in range(rng.randint(1, a.maxpasses))]
         jobs.append({"schemas": schemas, "passes": passes})
+    repo0 = repo_state()
     binp = core.build_harness(ctx)
     results = passlib.run_jobs(binp, jobs)
+    repo1 = repo_state()
+    if repo0 != repo1 or repo0[1]:
+        print("WARNING: %s was modified while the cases ran (HEAD %s -> %s, dirty: %r / %r): "
+              "the implementation results below are not those of HEAD" % (core.REPO, repo0[0][:8], repo1[0][:8], repo0[1], repo1[1]))
     st = {}
     for r in results:
         k = r["status"] if r["status"] != "OK" else r["outcome"][:4]
